@@ -1,2 +1,81 @@
-(* placeholder while the proofs are being written: replaced before the property is registered *)
-Theorem C01_pending : True. Proof. exact I. Qed.
+(* C01 — every PEL section is decoded once, in order, from exactly its own bytes. *)
+From Coq Require Import List NArith ZArith Bool Arith.
+From PV Require Import Base.Bytes Base.Lit Base.Json Base.Utf8 Base.Reader Base.PelTypes
+                       Model.Parse Model.Render Model.Pel Model.Env Spec.Encode Spec.DocOf Spec.Choice Gen.Tables
+                       Proofs.ParseFacts Proofs.SrcFacts Proofs.PelFacts Proofs.RenderFacts Proofs.NumberFacts.
+Import ListNotations.
+Open Scope N_scope.
+
+(* the ids and names the code uses are the published ones (regenerated from /repo on every run) *)
+Theorem C01_tables_agree :
+  Gen.Tables.sectionNames = PublishedTables.sectionNames /\
+  SectionID_privateHeader = ID_PH /\ SectionID_userHeader = ID_UH /\ SectionID_primarySRC = ID_PS /\
+  SectionID_secondarySRC = ID_SS /\ SectionID_extendedUserHeader = ID_EH /\ SectionID_failingMTMS = ID_MT /\
+  SectionID_extUserData = ID_ED /\ SectionID_userData = ID_UD /\ SectionID_impactedPart = ID_LP.
+Proof. exact (conj tables_agree_sections ids_agree). Qed.
+Print Assumptions C01_tables_agree.
+
+(* a section reader consumes exactly the section's bytes: whatever follows is handed on untouched *)
+Theorem C01_section_exact : forall s rest, wf_section s -> parse_section (enc_section s ++ rest) = Some (Some s, rest).
+Proof. exact parse_section_exact. Qed.
+Print Assumptions C01_section_exact.
+
+(* any number of sections in a row: all are read, in order; the only way to fail is a section whose display fails *)
+Theorem C01_sections_in_order : forall e c creator secs rest, Forall wf_section secs ->
+  decode_sections e c creator (length secs) (flat_map enc_section secs ++ rest) =
+    Some (all_some (map (render_section e c creator) secs)) \/
+  exists pre s, (exists post, secs = pre ++ s :: post) /\ render_section e c creator s = None /\
+    decode_sections e c creator (length secs) (flat_map enc_section secs ++ rest) = Some None.
+Proof. exact decode_sections_exact. Qed.
+Print Assumptions C01_sections_in_order.
+
+(* the whole log: Private Header, User Header, then one entry per optional section, bytes after the last section ignored *)
+Theorem C01_whole_pel : forall e c consider p trailing,
+  wf_pel p -> consider (p_uh p) = true ->
+  (forall creator, utf8_decode [ph_creator (p_ph p)] = Some creator ->
+     forall s, In s (p_secs p) -> render_section e c creator s <> None) ->
+  exists creator phj secs,
+    render_ph e (p_ph p) = Some (creator, phj) /\
+    all_some (map (render_section e c creator) (p_secs p)) = Some secs /\
+    decode e c consider (encode p ++ trailing) =
+      OkDoc (hexU 8 (ph_eid (p_ph p)))
+            (build_output [(section_name ID_PH, JObj phj); (section_name ID_UH, JObj (render_uh e creator (p_uh p)))] secs).
+Proof. exact decode_wf. Qed.
+Print Assumptions C01_whole_pel.
+
+(* entries are named after the two-character type through the published table, "Unknown" otherwise ... *)
+Theorem C01_names : forall e c creator secs r,
+  all_some (map (render_section e c creator) secs) = Some r ->
+  map fst r = map (fun s => section_name (sec_id s)) secs.
+Proof. exact all_some_names. Qed.
+Print Assumptions C01_names.
+Theorem C01_name_table : forall id, id < 65536 -> section_name id = name_of_id id.
+Proof. exact section_name_spec. Qed.
+Print Assumptions C01_name_table.
+
+(* ... a name that occurs more than once is numbered 0,1,2.. by the number of earlier occurrences *)
+Theorem C01_numbering_model : forall names, numbered names = numbered_names names.
+Proof. exact numbered_spec. Qed.
+Print Assumptions C01_numbering_model.
+Theorem C01_numbering : forall names i n, nth_error names i = Some n ->
+  nth_error (numbered_names names) i =
+    Some (if Nat.eqb (occurrences names n) 1 then n else n ++ L " " ++ dec (N.of_nat (occurrences (firstn i names) n))).
+Proof. exact numbered_nth. Qed.
+Print Assumptions C01_numbering.
+
+(* with pairwise distinct keys the document is the headers followed by the sections in log order *)
+Theorem C01_document_order : forall hdrs (secs : list (text * list (text * json))),
+  NoDup (map fst hdrs ++ numbered (map fst secs)) ->
+  build_output hdrs secs = hdrs ++ combine (numbered (map fst secs)) (map (fun s => JObj (snd s)) secs).
+Proof. exact build_output_distinct. Qed.
+Print Assumptions C01_document_order.
+
+(* non-vacuity: a generated PEL with seven sections (two of them hexdump-only with the same id) is well-formed enough to
+   decode, and its keys are numbered as stated *)
+Example C01_example :
+  let p := build_pel 8 40 [5; 7; 11; 7; 1; 2; 3; 4; 5; 6; 7; 8; 9; 10; 11; 3; 2; 1; 12; 7; 6; 5; 4; 3; 2; 1; 13; 7; 7; 7; 7] in
+  match decode env0 {| allow_plugins := false |} (fun _ => true) (encode p) with
+  | OkDoc _ doc => length doc = (2 + length (p_secs p))%nat
+  | _ => False
+  end.
+Proof. vm_compute. reflexivity. Qed.
